@@ -187,15 +187,19 @@ CHECKS['C14'] = dict(
          'UnboundLocalError / ValueError / KeyError / TypeError), it names a '
          'line of the input, the consumed-line count lies in [0, len] and '
          'equals len when garbage is ignored (loop invariant with a two-shape '
-         'heap template for the open hunk). Per-hunk geometry and the '
-         'must-raise conditions are covered by a generator with known '
-         'geometry plus single-point damages (labelled bounded). One known '
+         'heap template for the open hunk). Geometry and the must-raise '
+         'conditions: the real function is proved EQUAL to an independent '
+         'specification fold on every list of <= 2 (thorough: 3) lines with '
+         'symbolic contents (verdict, error line, totals, ten geometry '
+         'fields per hunk); longer lists by a generator with known geometry '
+         'plus single-point damages (labelled bounded). One known '
          'finding (marker directly after a completed hunk; a pinned test '
          'fixes that behaviour).',
     design_ref='5/C14',
     technique='contract-based deductive verification of the parser core '
-              '(exception freedom, positions, counts) + bounded geometry '
-              'generator',
+              '(exception freedom, positions, counts) + symbolic equivalence '
+              'with a specification fold on short line lists + bounded '
+              'geometry generator',
     note='Level "other": core proved, geometry bounded, one known finding. '
          'Assumes lines of at most 4300 bytes (CPython int() digit limit).',
     thorough=True)
